@@ -177,7 +177,8 @@ def run_one(seed: int, api: str, prov, ch: explorer.Chooser):
         log["provider_kw"] = kw
         return c
 
-    kw = dict(server="dc", username="u", password="p", auth_protocol="ntlm")
+    # (a mixed-case server name: whatever the client remembers about a server, it must find again under the name it was given)
+    kw = dict(server="DC01.Verif.Test", username="u", password="p", auth_protocol="ntlm")
     with transport.network(dc), secctx.scripted_client(factory):
         try:
             if api == "sync":
